@@ -475,15 +475,16 @@ pub const fn div_rem_uint_vartime<const RHS_LIMBS: usize>(
         lemma_neg_mag(quotient.v(), (bp(LIMBS as nat) - quotient.v()) % bp(LIMBS as nat), LIMBS as nat);
         let r0 = remainder.v(); let rt = true_rem(n, d);
         assert(rt == (if n < 0 { -r0 } else { r0 }));
-        lemma_iv_bounds(r0, RHS_LIMBS as nat);
+        lemma_iv_bounds(r0, RHS_LIMBS as nat); lemma_small_mod(r0 as nat, bp(RHS_LIMBS as nat) as nat);
         lemma_ineg(r0, (bp(RHS_LIMBS as nat) - r0) % bp(RHS_LIMBS as nat), RHS_LIMBS as nat);
         let xiv = iv_of(r0, RHS_LIMBS as nat); let wr = bp(RHS_LIMBS as nat);
-    if n < 0 {
-        if xiv != r0 { assert(xiv == r0 - wr); lemma_wrap_shift(-r0, 1, RHS_LIMBS as nat); assert(-r0 + 1 * wr == -xiv); }
-        assert(wrap_i(-xiv, RHS_LIMBS as nat) == wrap_i(rt, RHS_LIMBS as nat));
-    } else {
-        assert(wrap_i(rt, RHS_LIMBS as nat) == xiv);
-    }
+        if n < 0 {
+            // the reinterpreted remainder may already be negative (r0 >= W_R/2): -(r0 - W_R) ≡ -r0 (mod W_R)
+            if xiv != r0 { assert(xiv == r0 - wr); lemma_wrap_shift(-r0, 1, RHS_LIMBS as nat); assert(-r0 + 1 * wr == -xiv); }
+            assert(wrap_i(-xiv, RHS_LIMBS as nat) == wrap_i(rt, RHS_LIMBS as nat));
+        } else {
+            assert(wrap_i(rt, RHS_LIMBS as nat) == xiv);
+        }
         if in_range(rt, RHS_LIMBS as nat) { lemma_wrap_id(rt, RHS_LIMBS as nat); }
         if RHS_LIMBS >= LIMBS { lemma_bp_mono(LIMBS as nat, RHS_LIMBS as nat); }
     }
@@ -678,5 +679,33 @@ pub fn normalized_rem_vartime<const RHS_LIMBS: usize>(
     }
 }
 //@@ end
+
+// KNOWN FINDING F12 (see /verif/known_findings.json): expected to fail; witness
+// I128::from_i128(2^64-2).div_rem_uint_vartime(&NonZero(U64::MAX)) -> r = I64(-2)
+// (and n = -(2^64-3) -> r = +3). The remainder type Int<RHS_LIMBS> cannot hold |r| >= 2^(64*RHS_LIMBS-1) when
+// RHS_LIMBS < LIMBS. `requires` = the proved postcondition of Int::div_rem_uint_vartime, `ensures` = the unconditional
+// claim of property C14. The body is empty on purpose: this obligation MUST fail.
+pub proof fn known_finding_C14_F12<const LIMBS: usize, const RHS_LIMBS: usize>(n: Int<LIMBS>, d: NonZero<Uint<RHS_LIMBS>>, q: Int<LIMBS>, r: Int<RHS_LIMBS>)
+    requires 1 <= LIMBS < 0x400_0000, 1 <= RHS_LIMBS < 0x400_0000, d.0.v() != 0,
+        q.iv() == trunc_q(n.iv(), d.0.v()),
+        abs_i(true_rem(n.iv(), d.0.v())) < d.0.v(),
+        true_rem(n.iv(), d.0.v()) == 0 || (true_rem(n.iv(), d.0.v()) < 0) == (n.iv() < 0),
+        r.iv() == wrap_i(true_rem(n.iv(), d.0.v()), RHS_LIMBS as nat),
+        (RHS_LIMBS >= LIMBS || d.0.v() <= ih(RHS_LIMBS as nat)) ==> in_range(true_rem(n.iv(), d.0.v()), RHS_LIMBS as nat),
+        in_range(true_rem(n.iv(), d.0.v()), RHS_LIMBS as nat) ==> n.iv() == q.iv() * d.0.v() + r.iv(),
+    ensures n.iv() == q.iv() * d.0.v() + r.iv(), abs_i(r.iv()) < d.0.v()
+{
+}
+
+// KNOWN FINDING F12, same defect seen through Int::rem_uint_vartime: expected to fail.
+pub proof fn known_finding_C14_F12_rem<const LIMBS: usize, const RHS_LIMBS: usize>(n: Int<LIMBS>, d: NonZero<Uint<RHS_LIMBS>>, r: Int<RHS_LIMBS>)
+    requires 1 <= LIMBS < 0x400_0000, 1 <= RHS_LIMBS < 0x400_0000, d.0.v() != 0,
+        r.iv() == wrap_i(true_rem(n.iv(), d.0.v()), RHS_LIMBS as nat),
+        (RHS_LIMBS >= LIMBS || d.0.v() <= ih(RHS_LIMBS as nat)) ==> r.iv() == true_rem(n.iv(), d.0.v()),
+        abs_i(true_rem(n.iv(), d.0.v())) < d.0.v(),
+        true_rem(n.iv(), d.0.v()) == 0 || (true_rem(n.iv(), d.0.v()) < 0) == (n.iv() < 0),
+    ensures r.iv() == n.iv() - trunc_q(n.iv(), d.0.v()) * d.0.v(), abs_i(r.iv()) < d.0.v()
+{
+}
 
 } // verus!
